@@ -166,7 +166,7 @@ def run_check(prop, tier, seed, jobs=None, overrides=None, quiet=False, repo=REP
                             "paths": 0, "paths_ok": 0, "n_problems": 1})
     results = merge_shards(results)
     results.sort(key=lambda r: (r["module"], r["name"]))
-    return finish(prop, tier, seed, results, listing_errors, t0, quiet, repo)
+    return finish(prop, tier, seed, results, listing_errors, t0, quiet, repo, canaries=not only)
 
 
 def _child_main(func, arg, conn):
@@ -264,7 +264,30 @@ def merge_shards(results):
     return out
 
 
-def finish(prop, tier, seed, results, listing_errors, t0, quiet, repo):
+def run_canaries(prop, tier):
+    """must-fail self-check: seeded changes known to break `prop` are applied to a scratch copy; the check must alarm.
+    quick: the fastest seed (if it takes <= 20 s); thorough: all of them."""
+    if os.environ.get("PYVC_NO_CANARIES"):
+        return []
+    from . import canary
+    seeds = canary.seeds_for(prop)
+
+    def secs(d):
+        try:
+            return json.load(open(os.path.join(d, "meta.json")))["checks"][prop]["secs"]
+        except Exception:
+            return 1e9
+    if tier != "thorough":
+        seeds = [s for s in sorted(seeds, key=lambda s: secs(s[1])) if secs(s[1]) <= 20][:1]
+    out = []
+    for name, d in seeds:
+        t0 = time.time()
+        status, detail = canary.run_seed(prop, d)
+        out.append({"seed": name, "status": status, "detail": detail, "secs": round(time.time() - t0, 1)})
+    return out
+
+
+def finish(prop, tier, seed, results, listing_errors, t0, quiet, repo, canaries=False):
     known = load_known_findings()
     obligations = []  # (harness, label, status)
     failed = []
@@ -343,6 +366,12 @@ def finish(prop, tier, seed, results, listing_errors, t0, quiet, repo):
             continue
         violations.append((ident, rp, confirmed))
 
+    canary_results = []
+    if canaries and not violations and not failed:
+        canary_results = run_canaries(prop, tier)
+        for c in canary_results:
+            if c["status"] == "missed":
+                errors.append(f"must-fail canary {c['seed']} (a seeded change that breaks {prop}) was NOT detected: the check has become too weak")
     n_obl = len(obligations)
     n_dis = sum(1 for o in obligations if o["status"] == "discharged")
     wall = time.time() - t0
@@ -366,6 +395,7 @@ def finish(prop, tier, seed, results, listing_errors, t0, quiet, repo):
             "undecided": [{"harness": h, "clause": l, "why": w[:300]} for h, l, w in undecided],
             "checker_errors": errors,
             "known_findings_matched": known_lines,
+            "must_fail_canaries": canary_results,
             "notes": sorted(notes),
             "explanation": "obligation = (contract harness, clause); discharged = proved on every path of the symbolic execution of the real functions",
         },
